@@ -1072,17 +1072,28 @@ class Node(object):
 #       node.nodeType = self.nodeType
         node.parentNode = self.parentNode
         node.ownerDocument = self.ownerDocument
-        if deep:
-            if node.attributes is not None and self.attributes is not None:
-                node.attributes.update(self.attributes)
-            if self.hasChildNodes():
-                for x in self.childNodes:
+        # The `self` attribute doubles as the list of child nodes (see
+        # childNodes), so it must not be shared and then appended to
+        selfattr = None
+        if node.attributes is not None and self.attributes is not None:
+            for key, value in self.attributes.items():
+                if key == 'self' and isinstance(value, Node):
+                    selfattr = value
+                    continue
+                # A deep copy does not share attribute nodes with the original
+                if deep and isinstance(value, Node):
+                    value = value.cloneNode(deep)
+                node.attributes[key] = value
+        if selfattr is not None:
+            if deep:
+                node.attributes['self'] = selfattr.cloneNode(deep)
+            else:
+                node.attributes['self'] = selfattr
+        elif self.hasChildNodes():
+            for x in self.childNodes:
+                if deep:
                     node.append(x.cloneNode(deep))
-        else:
-            if node.attributes is not None and self.attributes is not None:
-                node.attributes.update(self.attributes)
-            if self.hasChildNodes():
-                for x in self.childNodes:
+                else:
                     node.append(x)
         return node
 
